@@ -226,7 +226,7 @@ def cases(ctx):
         yield dict(op=op, real=("h:props.C16.ns_run", [calls]), expect=ns_expected(calls), tag="netsource",
                    trivial=not any(calls))
     for fmt, gen in (("beast", stream_beast), ("raw", stream_raw), ("skysense", stream_sky)):
-        for _ in range(ctx.n(25, 400)):
+        for _ in range(ctx.n(25, 150)):
             k = rng.randrange(1, 9 if not ctx.thorough else 9)
             raw, frames = gen(rng, k)
             if fmt == "beast":
